@@ -25,6 +25,19 @@ pub fn run(name: &str, a: &Args) -> Option<String> {
             let t = ts(a.z(3));
             let r = e.to_time_scale(t);
             assert!(r.duration == e.to_duration_in_time_scale(t));
+            // the from_*_duration constructors are from_duration with the scale fixed; reference_epoch is the zero of the scale
+            let same = |x: Epoch| x.duration == e.duration && x.time_scale == e.time_scale;
+            match e.time_scale {
+                TimeScale::TAI => assert!(same(Epoch::from_tai_duration(e.duration))),
+                TimeScale::TT => assert!(same(Epoch::from_tt_duration(e.duration))),
+                TimeScale::UTC => assert!(same(Epoch::from_utc_duration(e.duration))),
+                TimeScale::GPST => assert!(same(Epoch::from_gpst_duration(e.duration))),
+                TimeScale::QZSST => assert!(same(Epoch::from_qzsst_duration(e.duration))),
+                TimeScale::GST => assert!(same(Epoch::from_gst_duration(e.duration))),
+                TimeScale::BDT => assert!(same(Epoch::from_bdt_duration(e.duration))),
+                _ => {}
+            }
+            assert!(t.reference_epoch().duration == Duration::ZERO && t.reference_epoch().time_scale == t);
             match t {
                 TimeScale::TAI => assert!(r.duration == e.to_tai_duration()),
                 TimeScale::TT => assert!(r.duration == e.to_tt_duration()),
@@ -89,7 +102,13 @@ pub fn run(name: &str, a: &Args) -> Option<String> {
             assert!(Ord::max(x, y) == Epoch::max(&x, y));
             pep(Epoch::max(&x, y))
         }
-        "leap" => format!("{}", epoch(a, 0).leap_seconds_iers()),
+        "leap" => {
+            let e = epoch(a, 0);
+            let n = e.leap_seconds_iers();
+            // the f64 accessor restricted to the announced entries is the same number
+            assert!(e.leap_seconds(true).unwrap_or(0.0) == f64::from(n));
+            format!("{n}")
+        }
         "tow_build" => pep(Epoch::from_time_of_week(a.z(0) as u32, a.z(1) as u64, ts(a.z(2)))),
         "tow_split" => {
             let (w, n) = epoch(a, 0).to_time_of_week();
@@ -168,7 +187,51 @@ pub fn run(name: &str, a: &Args) -> Option<String> {
                 a.z(6) as u32,
                 t,
             ) {
-                Ok(e) => format!("1 {}", pep(e)),
+                Ok(e) => {
+                    // every other Gregorian constructor is this one with some arguments fixed
+                    let (y, mo, d, h, mi, sec, ns) = (a.z(0) as i32, a.z(1) as u8, a.z(2) as u8, a.z(3) as u8, a.z(4) as u8, a.z(5) as u8, a.z(6) as u32);
+                    let same = |x: Epoch| x.duration == e.duration && x.time_scale == e.time_scale;
+                    assert!(same(Epoch::from_gregorian(y, mo, d, h, mi, sec, ns, t)));
+                    if ns == 0 {
+                        assert!(same(Epoch::from_gregorian_hms(y, mo, d, h, mi, sec, t)));
+                        if (h, mi, sec) == (0, 0, 0) {
+                            assert!(same(Epoch::from_gregorian_at_midnight(y, mo, d, t)));
+                        }
+                        if (h, mi, sec) == (12, 0, 0) {
+                            assert!(same(Epoch::from_gregorian_at_noon(y, mo, d, t)));
+                        }
+                    }
+                    match t {
+                        TimeScale::UTC => {
+                            assert!(same(Epoch::maybe_from_gregorian_utc(y, mo, d, h, mi, sec, ns).unwrap()));
+                            assert!(same(Epoch::from_gregorian_utc(y, mo, d, h, mi, sec, ns)));
+                            if ns == 0 {
+                                assert!(same(Epoch::from_gregorian_utc_hms(y, mo, d, h, mi, sec)));
+                                if (h, mi, sec) == (0, 0, 0) {
+                                    assert!(same(Epoch::from_gregorian_utc_at_midnight(y, mo, d)));
+                                }
+                                if (h, mi, sec) == (12, 0, 0) {
+                                    assert!(same(Epoch::from_gregorian_utc_at_noon(y, mo, d)));
+                                }
+                            }
+                        }
+                        TimeScale::TAI => {
+                            assert!(same(Epoch::maybe_from_gregorian_tai(y, mo, d, h, mi, sec, ns).unwrap()));
+                            assert!(same(Epoch::from_gregorian_tai(y, mo, d, h, mi, sec, ns)));
+                            if ns == 0 {
+                                assert!(same(Epoch::from_gregorian_tai_hms(y, mo, d, h, mi, sec)));
+                                if (h, mi, sec) == (0, 0, 0) {
+                                    assert!(same(Epoch::from_gregorian_tai_at_midnight(y, mo, d)));
+                                }
+                                if (h, mi, sec) == (12, 0, 0) {
+                                    assert!(same(Epoch::from_gregorian_tai_at_noon(y, mo, d)));
+                                }
+                            }
+                        }
+                        _ => {}
+                    }
+                    format!("1 {}", pep(e))
+                }
                 Err(hifitime::HifitimeError::InvalidGregorianDate) => "E1".to_string(),
                 Err(hifitime::HifitimeError::Duration { source: hifitime::DurationError::Underflow }) => "E2".to_string(),
                 Err(hifitime::HifitimeError::Duration { source: hifitime::DurationError::Overflow }) => "E3".to_string(),
